@@ -8,3 +8,4 @@ pub mod stack;
 pub mod sweep;
 pub mod util;
 pub mod linecol;
+pub mod pratt;
